@@ -5,6 +5,8 @@ eigenpair `(1 − λ, D^{-1/2} u)` of the random-walk transition matrix `D⁻¹ 
 -/
 import SkNet.Lemmas.Embedding
 
+set_option linter.unusedSectionVars false
+
 open Finset
 
 namespace SkNet.Embedding
@@ -70,22 +72,62 @@ theorem lapMatvec_normalized (F : Fn α) (n : Nat) (hn : 0 < n) (a : Mat α) (re
       = vget (lapInit F n a reg true).normDiag i
         * Spec.lapApply n a reg (fun j => vget (lapInit F n a reg true).normDiag j * vget x j) i := by
   rw [Spec.lapApply, degReg_eq n hn, aReg_apply]
-  have hcongr : ∀ (g : Nat → α → α),
-      (∑ j ∈ range n, g j (if j < n then vget (lapInit F n a reg true).normDiag j * vget x j else 0))
-      = ∑ j ∈ range n, g j (vget (lapInit F n a reg true).normDiag j * vget x j) := by
-    intro g
-    exact Finset.sum_congr rfl fun j hj => by rw [if_pos (Finset.mem_range.mp hj)]
+  have hw := lapInit_weights F n a reg true i hi
+  generalize hop : lapInit F n a reg true = op at hw ⊢
+  have h1 : op.n = n := by rw [← hop]; rfl
+  have h2 : op.reg = reg := by rw [← hop]; rfl
+  have h3 : op.normalized = true := by rw [← hop]; rfl
   by_cases hr : 0 < reg
-  · simp only [lapMatvec, hr, if_true, vget_tab, hi, sumN_eq_sum]
-    simp only [lapInit, if_true, vget_tab, hi, mul_one, sumN_eq_sum]
-    rw [hcongr (fun j y => mget a i j * y), hcongr (fun _ y => y)]
-    simp only [lapInit, if_true, vget_tab, hi, mul_one, sumN_eq_sum]
+  · unfold lapMatvec
+    simp only [h1, h2, h3, hr, if_true]
+    simp +contextual only [vget_tab, hi, if_true]
+    simp only [sumN_eq_sum, hw]
     ring
   · have h0 : reg = 0 := le_antisymm (not_lt.mp hr) hreg
-    simp only [lapMatvec, hr, if_false, vget_tab, hi, sumN_eq_sum]
-    simp only [lapInit, if_true, vget_tab, hi, mul_one, sumN_eq_sum]
-    rw [hcongr (fun j y => mget a i j * y)]
-    simp only [lapInit, if_true, vget_tab, hi, mul_one, sumN_eq_sum]
+    unfold lapMatvec
+    simp only [h1, h2, h3, hr, if_true, if_false]
+    simp +contextual only [vget_tab, hi, if_true]
+    simp only [sumN_eq_sum, hw]
     rw [h0]; ring
+
+/-- scalar facts behind `D^{-1/2}`: with `r² = d`, `(r⁺)² = d⁺` and `(r⁺)² d r⁺ = r⁺` -/
+theorem pinv_sq_of_sq {r d : α} (h : r * r = d) : pinv r * pinv r = pinv d := by
+  by_cases hr : r = 0
+  · have hd : d = 0 := by rw [← h, hr]; ring
+    simp [hr, hd, pinv_zero]
+  · have hd : d ≠ 0 := by rw [← h]; exact mul_ne_zero hr hr
+    rw [pinv_of_ne hr, pinv_of_ne hd, ← h]; field_simp
+
+theorem pinv_sq_mul_of_sq {r d : α} (h : r * r = d) : pinv r * pinv r * d * pinv r = pinv r := by
+  by_cases hr : r = 0
+  · simp [hr, pinv_zero]
+  · rw [pinv_of_ne hr, ← h]; field_simp
+
+/-- **Back-transformation of `Spectral.fit`** (one vector).  If `(λ, u)` is an eigenpair of the operator
+    `Laplacian(adjacency, reg, normalized_laplacian=True)` of the model, then `(1 − λ, D^{-1/2} u)` is an eigenpair of
+    the random-walk transition matrix `D_reg⁻¹ A_reg` of the specification (`D⁻¹` the pseudo-inverse, so isolated
+    nodes without regularisation are covered).  `sqrt` only has to square back on the regularised degrees. -/
+theorem rw_eigen_of_sym_vec (F : Fn α) (n : Nat) (hn : 0 < n) (a : Mat α) (reg : α) (hreg : 0 ≤ reg)
+    (hsq : ∀ i, i < n → F.sqrt ((∑ j ∈ range n, mget a i j) + reg) * F.sqrt ((∑ j ∈ range n, mget a i j) + reg)
+                        = (∑ j ∈ range n, mget a i j) + reg)
+    (u : Vec α) (lam : α)
+    (heig : ∀ i, i < n → vget (lapMatvec (lapInit F n a reg true) a u) i = lam * vget u i) :
+    ∀ i, i < n →
+      Spec.transApply n a reg (fun j => vget (lapInit F n a reg true).normDiag j * vget u j) i
+        = (1 - lam) * (vget (lapInit F n a reg true).normDiag i * vget u i) := by
+  intro i hi
+  have h := heig i hi
+  rw [lapMatvec_normalized F n hn a reg hreg u i hi, Spec.lapApply, degReg_eq n hn] at h
+  rw [Spec.transApply, degReg_eq n hn]
+  have hs := lapInit_normDiag F n a reg i hi
+  have h1 := pinv_sq_of_sq (hsq i hi)
+  have h2 := pinv_sq_mul_of_sq (hsq i hi)
+  rw [← hs] at h1 h2
+  generalize vget (lapInit F n a reg true).normDiag i = s at *
+  generalize (∑ j ∈ range n, mget a i j) + reg = d at *
+  generalize sumN n (fun j => Spec.aReg n a reg i j * (vget (lapInit F n a reg true).normDiag j * vget u j)) = av at *
+  rw [← h1]
+  have : s * s * av = s * s * d * s * vget u i - s * (s * (d * (s * vget u i) - av)) := by ring
+  rw [this, h, h2]; ring
 
 end SkNet.Embedding
